@@ -3,20 +3,40 @@
 
   Model: CRModel.Refs (LaneletNetwork.remove_* / cleanup_*_references / create_from_lanelet_network /
   create_from_lanelet_list, Scenario.remove_lanelet + remove_hanging_lanelet_members, Scenario.remove_traffic_sign /
-  remove_traffic_light / remove_intersection).  Lemmas: CRProofs.Refs.
+  remove_traffic_light / remove_intersection).  Lemmas: CRProofs.Refs, RefsDang, RefsFrame, RefsPresent.
 
   All theorems are for arbitrary networks, arbitrary arguments and arbitrary operation sequences (no size bound).
+
+  What "well-formed network" means here (`Inv`): the property's stated precondition `Wf` (a stop line refers only to
+  signs / lights its lanelet also references), no dangling reference to begin with (`NoDangling`), and pairwise
+  different ids (`Uniq`: what `Scenario._mark_object_id_as_used` enforces; the dicts of a `LaneletNetwork` have unique
+  keys anyway).  The core theorems need less and say so:
+    * `C10_noNewDangling_step/_run` need only `Wf`: whatever dangled before, no operation makes an id dangle that did
+      not dangle before — in particular nothing refers to an id the history removed (`C10_no_ref_to_removed_run`);
+    * `C10_frame_step/_run` need no hypothesis on the network at all;
+    * `Uniq` is needed only to speak of "the" element with a given id (`C10_present_run`) and for the id pool
+      (`C10_removeLanelets_ok`).
+  Declared limits: `cleanup_ids=True` (`Op.cleans`; `C10_witness_cleanup_needed` shows the claim is false without);
+  relations are compared as sets (membership), not as lists; `left_of` is not one of the listed relations and can be
+  left dangling by a cut-out (`C10_witness_leftOf_dangles`, observation only).
 -/
 import CRModel.Refs
 import CRProofs.Refs
+import CRProofs.RefsDang
 import CRProofs.RefsFrame
 import CRProofs.RefsPresent
 
 namespace CR.Refs
 
-/-- The invariant of a history: no dangling reference, and the property's precondition (a stop line refers only to
-signs / lights its lanelet also references). -/
-def Inv (n : Net) : Prop := NoDangling n ∧ Wf n
+/-- pairwise different ids over lanelets, signs, lights, intersections and incoming elements -/
+def Uniq (n : Net) : Prop := n.allIds.Nodup
+
+instance (n : Net) : Decidable (Uniq n) := by unfold Uniq; exact inferInstance
+
+/-- A *well-formed* network, the start state the property quantifies over: no dangling reference, the property's
+precondition on stop lines, pairwise different ids.  A network that already holds dangling references is outside
+"well-formed"; for it only `C10_noNewDangling_*` (no *new* dangling reference) and the frame theorems apply. -/
+def Inv (n : Net) : Prop := NoDangling n ∧ Wf n ∧ Uniq n
 
 /-- `cleanup_ids=True` (the default) for the two constructors; every other operation always cleans up. -/
 def Op.cleans : Op → Prop
@@ -26,128 +46,208 @@ def Op.cleans : Op → Prop
 
 instance (op : Op) : Decidable op.cleans := by cases op <;> unfold Op.cleans <;> exact inferInstance
 
-theorem inv_removeLanelet (n : Net) (x : Id) (h : Inv n) : Inv (n.removeLanelet x) :=
-  ⟨nd_removeLanelet h.1 x, wf_removeLanelet h.2 x⟩
-theorem inv_removeSign (n : Net) (x : Id) (h : Inv n) : Inv (n.removeSign x) :=
-  ⟨nd_removeSign h.1 x, wf_removeSign h.2 x⟩
-theorem inv_removeLight (n : Net) (x : Id) (h : Inv n) : Inv (n.removeLight x) :=
-  ⟨nd_removeLight h.1 x, wf_removeLight h.2 x⟩
-theorem inv_removeInter (n : Net) (x : Id) (h : Inv n) : Inv (n.removeInter x) :=
-  ⟨nd_removeInter h.1 x, wf_removeInter h.2 x⟩
+/-! ## No new dangling reference (hypothesis: only the stop-line precondition `Wf`) -/
 
-/-- **No dangling reference after any single operation** (network level and scenario level, including the state a
-scenario-level call leaves behind when it raises `KeyError` half-way), and the precondition is kept, so that the
-statement can be iterated. -/
-theorem C10_inv_step (s : Scn) (op : Op) (h : Inv s.net) (hc : op.cleans) : Inv (s.step op).1.net := by
+/-- One operation: `Wf` is kept, and every id that dangles afterwards (is mentioned in a listed relation but is not an
+element of the network) dangled before already — also in the state a scenario-level call leaves behind when it raises
+`KeyError` half-way. -/
+theorem C10_noNewDangling_step (s : Scn) (op : Op) (hw : Wf s.net) (hc : op.cleans) :
+    Wf (s.step op).1.net ∧ NoNewDangling s.net (s.step op).1.net := by
+  have key : ∀ (f : Net → Id → Net), (∀ m i, Wf m → Wf (f m i)) → (∀ m i, NoNewDangling m (f m i)) →
+      ∀ m i, (Wf m ∧ NoNewDangling s.net m) → (Wf (f m i) ∧ NoNewDangling s.net (f m i)) :=
+    fun f hi hf m i hq => ⟨hi m i hq.1, hq.2.trans (hf m i)⟩
+  have kl := key Net.removeLanelet (fun m i h => wf_removeLanelet h i) nnd_removeLanelet
+  have ks := key Net.removeSign (fun m i h => wf_removeSign h i) nnd_removeSign
+  have kt := key Net.removeLight (fun m i h => wf_removeLight h i) nnd_removeLight
+  have h0 : Wf s.net ∧ NoNewDangling s.net s.net := ⟨hw, NoNewDangling.refl _⟩
   cases op with
-  | netRemoveLanelet x => exact inv_removeLanelet _ x h
-  | netRemoveSign x => exact inv_removeSign _ x h
-  | netRemoveLight x => exact inv_removeLight _ x h
-  | netRemoveInter x => exact inv_removeInter _ x h
+  | netRemoveLanelet x => exact ⟨wf_removeLanelet hw x, nnd_removeLanelet _ x⟩
+  | netRemoveSign x => exact ⟨wf_removeSign hw x, nnd_removeSign _ x⟩
+  | netRemoveLight x => exact ⟨wf_removeLight hw x, nnd_removeLight _ x⟩
+  | netRemoveInter x => exact ⟨wf_removeInter hw x, nnd_removeInter _ x⟩
   | scnRemoveLanelets args r =>
-    exact Scn.removeLanelets_inv Inv inv_removeLanelet inv_removeSign inv_removeLight s args r h
-  | scnRemoveSigns xs => exact Scn.removeSigns_inv Inv inv_removeSign s xs h
-  | scnRemoveLights xs => exact Scn.removeLights_inv Inv inv_removeLight s xs h
-  | scnRemoveInter x incs =>
-    show Inv (Scn.idsRemoveAll _ _).1.net
-    rw [Scn.idsRemoveAll_net]
-    exact inv_removeInter _ x h
+    exact Scn.removeLanelets_inv (fun m => Wf m ∧ NoNewDangling s.net m) kl ks kt s args r h0
+  | scnRemoveSigns xs => exact Scn.removeSigns_inv (fun m => Wf m ∧ NoNewDangling s.net m) ks s xs h0
+  | scnRemoveLights xs => exact Scn.removeLights_inv (fun m => Wf m ∧ NoNewDangling s.net m) kt s xs h0
+  | scnRemoveInter x =>
+    show Wf (s.removeInter x).1.net ∧ NoNewDangling s.net (s.removeInter x).1.net
+    rw [Scn.removeInter_net]
+    exact ⟨wf_removeInter hw x, nnd_removeInter _ x⟩
   | cutOut keep c =>
     have hc' : c = true := hc
     subst hc'
-    show Inv (match s.net.cutOut (fun a => keep.contains a) true with
-      | .ok n' => (({ net := n', ids := n'.allIds } : Scn), (none : Option Err))
-      | .error e => (s, some e)).1.net
+    show Wf (match s.net.cutOut (fun a => keep.contains a) true with
+        | .ok n' => (({ net := n', ids := n'.allIds } : Scn), (none : Option Err))
+        | .error e => (s, some e)).1.net ∧
+      NoNewDangling s.net (match s.net.cutOut (fun a => keep.contains a) true with
+        | .ok n' => (({ net := n', ids := n'.allIds } : Scn), (none : Option Err))
+        | .error e => (s, some e)).1.net
     cases hr : s.net.cutOut (fun a => keep.contains a) true with
-    | ok n' => exact ⟨nd_cutOut h.2 hr, wf_cutOut h.2 hr⟩
-    | error e => exact h
+    | ok n' => exact ⟨wf_cutOut hw hr, nnd_cutOut hw hr⟩
+    | error e => exact h0
   | fromList sel c =>
     have hc' : c = true := hc
     subst hc'
-    exact ⟨nd_fromList _ sel, wf_fromList h.2 sel true⟩
+    exact ⟨wf_fromList hw sel true, nnd_fromList _ sel⟩
+
+/-- **No new dangling reference after any sequence of removals and cut-outs.** -/
+theorem C10_noNewDangling_run (s : Scn) (ops : List Op) (hw : Wf s.net) (hc : ∀ op ∈ ops, op.cleans) :
+    Wf (s.run ops).net ∧ NoNewDangling s.net (s.run ops).net := by
+  induction ops generalizing s with
+  | nil => exact ⟨hw, NoNewDangling.refl _⟩
+  | cons o os ih =>
+    have h1 := C10_noNewDangling_step s o hw (hc o List.mem_cons_self)
+    have h2 := ih (s.step o).1 h1.1 (fun op hop => hc op (List.mem_cons_of_mem _ hop))
+    exact ⟨h2.1, h1.2.trans h2.2⟩
+
+/-- **No remaining element refers to a removed id** — the property's first sentence, for whole histories and without
+assuming that nothing dangled at the start: an id that was an element of the start network and is not an element of the
+final network is mentioned by no listed relation of the final network. -/
+theorem C10_no_ref_to_removed_run (s : Scn) (ops : List Op) (hw : Wf s.net) (hc : ∀ op ∈ ops, op.cleans) :
+    (∀ x ∈ s.net.lids, x ∉ (s.run ops).net.lids → ¬ RefL (s.run ops).net x) ∧
+    (∀ x ∈ s.net.sids, x ∉ (s.run ops).net.sids → ¬ RefS (s.run ops).net x) ∧
+    (∀ x ∈ s.net.tids, x ∉ (s.run ops).net.tids → ¬ RefT (s.run ops).net x) := by
+  have h := (C10_noNewDangling_run s ops hw hc).2
+  exact ⟨fun x hx hn hr => (h.lan x ⟨hr, hn⟩).2 hx, fun x hx hn hr => (h.sign x ⟨hr, hn⟩).2 hx,
+    fun x hx hn hr => (h.light x ⟨hr, hn⟩).2 hx⟩
+
+/-- (definitional: documents the model, carries no proof content) what `RefL` / `RefS` / `RefT` range over, relation by
+relation: predecessor / successor / adjacency, intersection crossing / incoming / successor sets, lanelet sign and
+light references, stop-line references. -/
+theorem C10_refs_spelled_out (n : Net) (x : Id) :
+    (RefL n x ↔ (∃ l ∈ n.lanelets, x ∈ l.pred ∨ x ∈ l.succ ∨ l.adjL = some x ∨ l.adjR = some x) ∨
+      (∃ i ∈ n.inters, x ∈ i.crossings ∨ ∃ k ∈ i.incomings, x ∈ k.inc ∨ x ∈ k.right ∨ x ∈ k.straight ∨ x ∈ k.left)) ∧
+    (RefS n x ↔ ∃ l ∈ n.lanelets, x ∈ l.signs ∨ ∃ st, l.stop = some st ∧ ∃ r, st.signRef = some r ∧ x ∈ r) ∧
+    (RefT n x ↔ ∃ l ∈ n.lanelets, x ∈ l.lights ∨ ∃ st, l.stop = some st ∧ ∃ r, st.lightRef = some r ∧ x ∈ r) := by
+  refine ⟨?_, ?_, ?_⟩
+  · unfold RefL
+    refine or_congr ?_ ?_
+    · exact exists_congr fun l => and_congr_right fun _ => mem_lrefs
+    · refine exists_congr fun i => and_congr_right fun _ => ?_
+      simp only [Intersection.lrefs, Incoming.lrefs, List.mem_append, List.mem_flatMap]
+      refine or_congr Iff.rfl (exists_congr fun k => and_congr_right fun _ => ?_)
+      constructor
+      · rintro (((h | h) | h) | h)
+        · exact Or.inl h
+        · exact Or.inr (Or.inl h)
+        · exact Or.inr (Or.inr (Or.inl h))
+        · exact Or.inr (Or.inr (Or.inr h))
+      · rintro (h | h | h | h)
+        · exact Or.inl (Or.inl (Or.inl h))
+        · exact Or.inl (Or.inl (Or.inr h))
+        · exact Or.inl (Or.inr h)
+        · exact Or.inr h
+  · unfold RefS
+    refine exists_congr fun l => and_congr_right fun _ => ?_
+    rw [List.mem_append]
+    refine or_congr Iff.rfl ?_
+    unfold Lanelet.stopS StopLine.srefs
+    cases hst : l.stop with
+    | none => simp
+    | some st => cases hr : st.signRef <;> simp [hr]
+  · unfold RefT
+    refine exists_congr fun l => and_congr_right fun _ => ?_
+    rw [List.mem_append]
+    refine or_congr Iff.rfl ?_
+    unfold Lanelet.stopT StopLine.trefs
+    cases hst : l.stop with
+    | none => simp
+    | some st => cases hr : st.lightRef <;> simp [hr]
+
+/-! ## Unique ids are kept -/
+
+theorem uniq_of_sublist {n n' : Net} (h : List.Sublist n'.allIds n.allIds) (hu : Uniq n) : Uniq n' :=
+  List.Nodup.sublist h hu
+
+theorem C10_uniq_step (s : Scn) (op : Op) (hu : Uniq s.net) : Uniq (s.step op).1.net := by
+  have kl : ∀ m i, Uniq m → Uniq (Net.removeLanelet m i) := fun m i h => uniq_of_sublist (allIds_removeLanelet m i) h
+  have ks : ∀ m i, Uniq m → Uniq (Net.removeSign m i) := fun m i h => uniq_of_sublist (allIds_removeSign m i) h
+  have kt : ∀ m i, Uniq m → Uniq (Net.removeLight m i) := fun m i h => uniq_of_sublist (allIds_removeLight m i) h
+  cases op with
+  | netRemoveLanelet x => exact kl _ x hu
+  | netRemoveSign x => exact ks _ x hu
+  | netRemoveLight x => exact kt _ x hu
+  | netRemoveInter x => exact uniq_of_sublist (allIds_removeInter _ x) hu
+  | scnRemoveLanelets args r => exact Scn.removeLanelets_inv Uniq kl ks kt s args r hu
+  | scnRemoveSigns xs => exact Scn.removeSigns_inv Uniq ks s xs hu
+  | scnRemoveLights xs => exact Scn.removeLights_inv Uniq kt s xs hu
+  | scnRemoveInter x =>
+    show Uniq (s.removeInter x).1.net
+    rw [Scn.removeInter_net]
+    exact uniq_of_sublist (allIds_removeInter _ x) hu
+  | cutOut keep c =>
+    show Uniq (match s.net.cutOut (fun a => keep.contains a) c with
+        | .ok n' => (({ net := n', ids := n'.allIds } : Scn), (none : Option Err))
+        | .error e => (s, some e)).1.net
+    cases hr : s.net.cutOut (fun a => keep.contains a) c with
+    | ok n' => exact uniq_of_sublist (allIds_cutOut hr) hu
+    | error e => exact hu
+  | fromList sel c => exact allIds_fromList_nodup _ sel c
+
+theorem C10_uniq_run (s : Scn) (ops : List Op) (hu : Uniq s.net) : Uniq (s.run ops).net := by
+  induction ops generalizing s with
+  | nil => exact hu
+  | cons o os ih => exact ih (s.step o).1 (C10_uniq_step s o hu)
+
+/-! ## The well-formedness invariant -/
+
+/-- **A well-formed network stays well-formed under every single operation** (network level and scenario level,
+including the state a scenario-level call leaves behind when it raises `KeyError` half-way): no dangling reference,
+the stop-line precondition and unique ids are all kept, so the statement can be iterated. -/
+theorem C10_inv_step (s : Scn) (op : Op) (h : Inv s.net) (hc : op.cleans) : Inv (s.step op).1.net := by
+  have h1 := C10_noNewDangling_step s op h.2.1 hc
+  exact ⟨h1.2.noDangling h.1, h1.1, C10_uniq_step s op h.2.2⟩
 
 theorem C10_nodangling_step (s : Scn) (op : Op) (hnd : NoDangling s.net) (hw : Wf s.net) (hc : op.cleans) :
-    NoDangling (s.step op).1.net := (C10_inv_step s op ⟨hnd, hw⟩ hc).1
+    NoDangling (s.step op).1.net := (C10_noNewDangling_step s op hw hc).2.noDangling hnd
 
 /-- **No dangling reference after any sequence of removals and cut-outs** (induction over the history). -/
 theorem C10_inv_run (s : Scn) (ops : List Op) (h : Inv s.net) (hc : ∀ op ∈ ops, op.cleans) : Inv (s.run ops).net := by
-  induction ops generalizing s with
-  | nil => exact h
-  | cons o os ih =>
-    exact ih (s.step o).1 (C10_inv_step s o h (hc o List.mem_cons_self))
-      (fun op hop => hc op (List.mem_cons_of_mem _ hop))
+  have h1 := C10_noNewDangling_run s ops h.2.1 hc
+  exact ⟨h1.2.noDangling h.1, h1.1, C10_uniq_run s ops h.2.2⟩
 
 theorem C10_nodangling_run (s : Scn) (ops : List Op) (hnd : NoDangling s.net) (hw : Wf s.net)
-    (hc : ∀ op ∈ ops, op.cleans) : NoDangling (s.run ops).net := (C10_inv_run s ops ⟨hnd, hw⟩ hc).1
+    (hc : ∀ op ∈ ops, op.cleans) : NoDangling (s.run ops).net :=
+  (C10_noNewDangling_run s ops hw hc).2.noDangling hnd
 
 /-- every intermediate state of a history, too (the `trace` is what the correspondence compares) -/
-theorem C10_nodangling_trace (s : Scn) (ops : List Op) (h : Inv s.net) (hc : ∀ op ∈ ops, op.cleans) :
-    ∀ r ∈ s.trace ops, NoDangling r.1.net := by
+theorem C10_nodangling_trace (s : Scn) (ops : List Op) (hnd : NoDangling s.net) (hw : Wf s.net)
+    (hc : ∀ op ∈ ops, op.cleans) : ∀ r ∈ s.trace ops, NoDangling r.1.net := by
   induction ops generalizing s with
   | nil => intro r hr; cases hr
   | cons o os ih =>
     intro r hr
-    have h1 := C10_inv_step s o h (hc o List.mem_cons_self)
+    have h1 := C10_noNewDangling_step s o hw (hc o List.mem_cons_self)
     rcases List.mem_cons.1 hr with rfl | hr
-    · exact h1.1
-    · exact ih (s.step o).1 h1 (fun op hop => hc op (List.mem_cons_of_mem _ hop)) r hr
+    · exact h1.2.noDangling hnd
+    · exact ih (s.step o).1 (h1.2.noDangling hnd) h1.1 (fun op hop => hc op (List.mem_cons_of_mem _ hop)) r hr
 
-/-- "no remaining element refers to a removed id", spelled out relation by relation: in a network without dangling
-references an id that is not (any more) an element of the network occurs in no relation at all. -/
-theorem C10_no_ref_to_absent {n : Net} (h : NoDangling n) :
-    (∀ x, x ∉ n.lids → ∀ l ∈ n.lanelets, x ∉ l.pred ∧ x ∉ l.succ ∧ l.adjL ≠ some x ∧ l.adjR ≠ some x) ∧
-    (∀ x, x ∉ n.lids → ∀ i ∈ n.inters, x ∉ i.crossings ∧
-        ∀ k ∈ i.incomings, x ∉ k.inc ∧ x ∉ k.right ∧ x ∉ k.straight ∧ x ∉ k.left) ∧
-    (∀ x, x ∉ n.sids → ∀ l ∈ n.lanelets, x ∉ l.signs ∧ ∀ st, l.stop = some st → ∀ r, st.signRef = some r → x ∉ r) ∧
-    (∀ x, x ∉ n.tids → ∀ l ∈ n.lanelets, x ∉ l.lights ∧ ∀ st, l.stop = some st → ∀ r, st.lightRef = some r → x ∉ r) := by
-  obtain ⟨h1, h2, h3, h4⟩ := h
-  refine ⟨fun x hx l hl => ?_, fun x hx i hi => ?_, fun x hx l hl => ?_, fun x hx l hl => ?_⟩
-  · have := h1 l hl x
-    simp only [Lanelet.lrefs, List.mem_append, Option.mem_toList] at this
-    refine ⟨fun c => hx (this (Or.inl (Or.inl (Or.inl c)))), fun c => hx (this (Or.inl (Or.inl (Or.inr c)))),
-      fun c => hx (this (Or.inl (Or.inr (by simp [c])))), fun c => hx (this (Or.inr (by simp [c])))⟩
-  · have := h4 i hi x
-    simp only [Intersection.lrefs, Incoming.lrefs, List.mem_append, List.mem_flatMap] at this
-    refine ⟨fun c => hx (this (Or.inl c)), fun k hk => ⟨fun c => hx (this (Or.inr ⟨k, hk, ?_⟩)),
-      fun c => hx (this (Or.inr ⟨k, hk, ?_⟩)), fun c => hx (this (Or.inr ⟨k, hk, ?_⟩)),
-      fun c => hx (this (Or.inr ⟨k, hk, ?_⟩))⟩⟩ <;> simp [c]
-  · have := h2 l hl x
-    simp only [List.mem_append] at this
-    refine ⟨fun c => hx (this (Or.inl c)), fun st hst r hr c => hx (this (Or.inr ?_))⟩
-    simp [Lanelet.stopS, hst, StopLine.srefs, hr, c]
-  · have := h3 l hl x
-    simp only [List.mem_append] at this
-    refine ⟨fun c => hx (this (Or.inl c)), fun st hst r hr c => hx (this (Or.inr ?_))⟩
-    simp [Lanelet.stopT, hst, StopLine.trefs, hr, c]
-
-/-! ## Frame: relations between remaining elements untouched, content unchanged
+/-! ## Frame: relations between remaining elements untouched, content unchanged (no hypothesis on the network)
 
 `Frame n n'` (CRProofs.RefsFrame): every lanelet / sign / light / intersection / incoming element of `n'` is one of
-`n` with the same id and the same content, and each of its relations is the old relation intersected with the ids
-present in `n'` (membership; order and multiplicity are not claimed); an adjacency that survives keeps its direction
-flag; `left_of` is unchanged. -/
+`n` with the same id and the same content; none of its relations has gained a member, and every old member that names
+an element still present in `n'` is still a member (membership; order and multiplicity are not claimed); an adjacency
+that survives keeps its direction flag.  `left_of` is copied verbatim — it is not among the relations the property
+lists and may name an incoming element that a cut-out dropped (`C10_witness_leftOf_dangles`). -/
 
-theorem C10_frame_step (s : Scn) (op : Op) (h : Inv s.net) (hc : op.cleans) : Frame s.net (s.step op).1.net := by
-  have key : ∀ (f : Net → Id → Net), (∀ m i, Inv m → Inv (f m i)) → (∀ m i, NoDangling m → Frame m (f m i)) →
-      ∀ m i, (Inv m ∧ Frame s.net m) → (Inv (f m i) ∧ Frame s.net (f m i)) :=
-    fun f hi hf m i hq => ⟨hi m i hq.1, Frame.trans hq.2 (hf m i hq.1.1)⟩
-  have kl := key Net.removeLanelet inv_removeLanelet (fun m i h => frame_removeLanelet h i)
-  have ks := key Net.removeSign inv_removeSign (fun m i h => frame_removeSign h i)
-  have kt := key Net.removeLight inv_removeLight (fun m i h => frame_removeLight h i)
-  have h0 : Inv s.net ∧ Frame s.net s.net := ⟨h, Frame.refl h.1⟩
+theorem C10_frame_step (s : Scn) (op : Op) (hc : op.cleans) : Frame s.net (s.step op).1.net := by
+  have key : ∀ (f : Net → Id → Net), (∀ m i, Frame m (f m i)) → ∀ m i, Frame s.net m → Frame s.net (f m i) :=
+    fun f hf m i hq => Frame.trans hq (hf m i)
+  have kl := key Net.removeLanelet frame_removeLanelet
+  have ks := key Net.removeSign frame_removeSign
+  have kt := key Net.removeLight frame_removeLight
   cases op with
-  | netRemoveLanelet x => exact frame_removeLanelet h.1 x
-  | netRemoveSign x => exact frame_removeSign h.1 x
-  | netRemoveLight x => exact frame_removeLight h.1 x
-  | netRemoveInter x => exact frame_removeInter h.1 x
-  | scnRemoveLanelets args r =>
-    exact (Scn.removeLanelets_inv (fun m => Inv m ∧ Frame s.net m) kl ks kt s args r h0).2
-  | scnRemoveSigns xs => exact (Scn.removeSigns_inv (fun m => Inv m ∧ Frame s.net m) ks s xs h0).2
-  | scnRemoveLights xs => exact (Scn.removeLights_inv (fun m => Inv m ∧ Frame s.net m) kt s xs h0).2
-  | scnRemoveInter x incs =>
-    show Frame s.net (Scn.idsRemoveAll _ _).1.net
-    rw [Scn.idsRemoveAll_net]
-    exact frame_removeInter h.1 x
+  | netRemoveLanelet x => exact frame_removeLanelet _ x
+  | netRemoveSign x => exact frame_removeSign _ x
+  | netRemoveLight x => exact frame_removeLight _ x
+  | netRemoveInter x => exact frame_removeInter _ x
+  | scnRemoveLanelets args r => exact Scn.removeLanelets_inv (Frame s.net) kl ks kt s args r Frame.refl
+  | scnRemoveSigns xs => exact Scn.removeSigns_inv (Frame s.net) ks s xs Frame.refl
+  | scnRemoveLights xs => exact Scn.removeLights_inv (Frame s.net) kt s xs Frame.refl
+  | scnRemoveInter x =>
+    show Frame s.net (s.removeInter x).1.net
+    rw [Scn.removeInter_net]
+    exact frame_removeInter _ x
   | cutOut keep c =>
     have hc' : c = true := hc
     subst hc'
@@ -155,52 +255,29 @@ theorem C10_frame_step (s : Scn) (op : Op) (h : Inv s.net) (hc : op.cleans) : Fr
       | .ok n' => (({ net := n', ids := n'.allIds } : Scn), (none : Option Err))
       | .error e => (s, some e)).1.net
     cases hr : s.net.cutOut (fun a => keep.contains a) true with
-    | ok n' => exact frame_cutOut h.2 hr
-    | error e => exact Frame.refl h.1
+    | ok n' => exact frame_cutOut hr
+    | error e => exact Frame.refl
   | fromList sel c =>
     have hc' : c = true := hc
     subst hc'
-    exact frame_fromList h.1 sel
+    exact frame_fromList _ sel
 
 /-- **Frame over any sequence of removals and cut-outs**: whatever is left at the end is an element of the initial
 network with unchanged content, and its relations are the initial ones restricted to what is left. -/
-theorem C10_frame_run (s : Scn) (ops : List Op) (h : Inv s.net) (hc : ∀ op ∈ ops, op.cleans) :
-    Frame s.net (s.run ops).net := by
+theorem C10_frame_run (s : Scn) (ops : List Op) (hc : ∀ op ∈ ops, op.cleans) : Frame s.net (s.run ops).net := by
   induction ops generalizing s with
-  | nil => exact Frame.refl h.1
+  | nil => exact Frame.refl
   | cons o os ih =>
-    have h1 := C10_inv_step s o h (hc o List.mem_cons_self)
-    exact Frame.trans (C10_frame_step s o h (hc o List.mem_cons_self))
-      (ih (s.step o).1 h1 (fun op hop => hc op (List.mem_cons_of_mem _ hop)))
+    exact Frame.trans (C10_frame_step s o (hc o List.mem_cons_self))
+      (ih (s.step o).1 (fun op hop => hc op (List.mem_cons_of_mem _ hop)))
 
-/-- reading `Frame` for one relation: a successor edge between two lanelets that are both still there is still there,
-and no edge appears -/
-theorem C10_frame_succ {n n' : Net} (f : Frame n n') {l' : Lanelet} (hl' : l' ∈ n'.lanelets) :
+/-- reading `Frame` for one relation when nothing dangles afterwards: the successors of a remaining lanelet are
+exactly its old successors that are still there -/
+theorem C10_frame_succ {n n' : Net} (f : Frame n n') (hnd : NoDangling n') {l' : Lanelet} (hl' : l' ∈ n'.lanelets) :
     ∃ l ∈ n.lanelets, l.id = l'.id ∧ l.content = l'.content ∧ ∀ b, b ∈ l'.succ ↔ b ∈ l.succ ∧ b ∈ n'.lids := by
   obtain ⟨l, hl, lf⟩ := f.lan l' hl'
-  exact ⟨l, hl, lf.id.symm, lf.content.symm, lf.succ⟩
-
-theorem eq_of_nodup_map_id {ls : List Lanelet} (hn : (ls.map (·.id)).Nodup) {a b : Lanelet} (ha : a ∈ ls) (hb : b ∈ ls)
-    (he : a.id = b.id) : a = b := by
-  induction ls with
-  | nil => cases ha
-  | cons c cs ih =>
-    rw [List.map_cons, List.nodup_cons] at hn
-    rcases List.mem_cons.1 ha with rfl | ha' <;> rcases List.mem_cons.1 hb with rfl | hb'
-    · rfl
-    · exact absurd (List.mem_map.2 ⟨b, hb', he.symm⟩) hn.1
-    · exact absurd (List.mem_map.2 ⟨a, ha', he⟩) hn.1
-    · exact ih hn.2 ha' hb'
-
-/-- **Every lanelet whose id is still present is still present with unchanged content** (a Python dict has unique
-keys: `n.lids.Nodup`): the old lanelet itself is framed by a lanelet of the new network. -/
-theorem C10_unselected_unchanged {n n' : Net} (hn : n.lids.Nodup) (f : Frame n n') {l : Lanelet} (hl : l ∈ n.lanelets)
-    (hs : l.id ∈ n'.lids) :
-    ∃ l' ∈ n'.lanelets, LaneletFrame (· ∈ n'.lids) (· ∈ n'.sids) (· ∈ n'.tids) l l' := by
-  obtain ⟨l', hl', hid⟩ := List.mem_map.1 hs
-  obtain ⟨l0, hl0, lf⟩ := f.lan l' hl'
-  have : l0 = l := eq_of_nodup_map_id hn hl0 hl (lf.id.symm.trans hid)
-  exact ⟨l', hl', this ▸ lf⟩
+  exact ⟨l, hl, lf.id.symm, lf.content.symm,
+    lf.succ.iff fun b hb => hnd.1 l' hl' b (mem_lrefs.2 (Or.inr (Or.inl hb)))⟩
 
 /-! ## Presence: every element not selected for removal is still there; the selected ones are gone -/
 
@@ -216,11 +293,14 @@ theorem C10_present_netRemoveSign (n : Net) (x : Id) :
     (n.removeSign x).lights = n.lights ∧ (n.removeSign x).inters = n.inters :=
   ⟨removeSign_lids n x, removeSign_signs n x, removeSign_lights n x, removeSign_inters n x⟩
 
+/-- (definitional: documents the model — three of the four parts hold by `rfl` — carries no proof content beyond
+`removeLight_lids`) -/
 theorem C10_present_netRemoveLight (n : Net) (x : Id) :
     (n.removeLight x).lids = n.lids ∧ (n.removeLight x).signs = n.signs ∧
     (n.removeLight x).lights = n.lights.filter (fun s => s.1 != x) ∧ (n.removeLight x).inters = n.inters :=
   ⟨removeLight_lids n x, rfl, rfl, rfl⟩
 
+/-- (definitional: documents the model, carries no proof content) -/
 theorem C10_present_netRemoveInter (n : Net) (x : Id) :
     (n.removeInter x).lanelets = n.lanelets ∧ (n.removeInter x).signs = n.signs ∧
     (n.removeInter x).lights = n.lights ∧ (n.removeInter x).inters = n.inters.filter (fun i => i.id != x) :=
@@ -308,13 +388,13 @@ theorem C10_done_scnRemoveLanelets (s : Scn) (args : List RmArg) (hok : (s.remov
     (∀ t ∈ s.net.hangingLights args, t ∉ (s.removeLanelets args true).1.net.tids) := by
   obtain ⟨s1, s2, e1, e2, e3⟩ := Scn.removeLanelets_done s args hok
   rw [e3] at hok ⊢
-  have d3 := Scn.loop_done Net.removeLanelet Scn.removeLaneletLoop (fun _ => rfl) (fun _ _ _ => rfl)
+  have d3 := Scn.loop_done loopShape_lanelets
     (fun i m => i ∉ m.lids) (fun m i => by rw [removeLanelet_lids]; simp)
     (fun m i j h => by rw [removeLanelet_lids]; exact fun c => h (List.mem_filter.1 c).1) s2 _ hok
-  have d1 := Scn.loop_done Net.removeSign Scn.removeSigns (fun _ => rfl) (fun _ _ _ => rfl)
+  have d1 := Scn.loop_done loopShape_signs
     (fun i m => i ∉ m.sids) (fun m i => by rw [removeSign_sids]; simp)
     (fun m i j h => by rw [removeSign_sids]; exact fun c => h (List.mem_filter.1 c).1) s _ (by rw [e1])
-  have d2 := Scn.loop_done Net.removeLight Scn.removeLights (fun _ => rfl) (fun _ _ _ => rfl)
+  have d2 := Scn.loop_done loopShape_lights
     (fun i m => i ∉ m.tids) (fun m i => by rw [removeLight_tids]; simp)
     (fun m i j h => by rw [removeLight_tids]; exact fun c => h (List.mem_filter.1 c).1) s1 _ (by rw [e2])
   rw [e1] at d1
@@ -329,8 +409,9 @@ theorem C10_done_scnRemoveLanelets (s : Scn) (args : List RmArg) (hok : (s.remov
   · exact Scn.removeLaneletLoop_inv (fun m => t ∉ m.tids) (fun m i h => by rw [removeLanelet_tids]; exact h) s2 _
       (d2 t ht)
 
-/-- **hanging, "iff"**: on a normal return of `Scenario.remove_lanelet(args, referenced_elements=True)` a sign of the
-network is removed exactly when a lanelet handed in references it and no remaining lanelet does. -/
+/-- **hanging, "iff"**: on a normal return (`hok`; discharged from id-pool consistency by `C10_removeLanelets_ok`, see
+`C10_hanging_iff_idpool`) of `Scenario.remove_lanelet(args, referenced_elements=True)` a sign of the network is removed
+exactly when a lanelet handed in references it and no remaining lanelet does. -/
 theorem C10_hanging_iff (s : Scn) (args : List RmArg) (hok : (s.removeLanelets args true).2 = none) (e : Elem)
     (he : e ∈ s.net.signs) :
     e.1 ∉ (s.removeLanelets args true).1.net.sids ↔
@@ -363,7 +444,7 @@ theorem C10_hanging_iff_light (s : Scn) (args : List RmArg) (hok : (s.removeLane
 theorem C10_present_scnRemoveSigns (s : Scn) (xs : List Id) :
     (s.removeSigns xs).1.net.lids = s.net.lids ∧ (∀ e ∈ s.net.signs, e.1 ∉ xs → e ∈ (s.removeSigns xs).1.net.signs) ∧
     (s.removeSigns xs).1.net.lights = s.net.lights ∧ (s.removeSigns xs).1.net.inters = s.net.inters := by
-  refine Scn.loop_inv' Net.removeSign Scn.removeSigns (fun _ => rfl) (fun _ _ _ => rfl)
+  refine Scn.loop_inv' loopShape_signs
     (fun m => m.lids = s.net.lids ∧ (∀ e ∈ s.net.signs, e.1 ∉ xs → e ∈ m.signs) ∧ m.lights = s.net.lights ∧
       m.inters = s.net.inters) s xs ?_ ⟨rfl, fun _ h _ => h, rfl, rfl⟩
   rintro m i hi ⟨q1, q2, q3, q4⟩
@@ -379,7 +460,7 @@ theorem C10_present_scnRemoveLights (s : Scn) (xs : List Id) :
     (s.removeLights xs).1.net.lids = s.net.lids ∧ (s.removeLights xs).1.net.signs = s.net.signs ∧
     (∀ e ∈ s.net.lights, e.1 ∉ xs → e ∈ (s.removeLights xs).1.net.lights) ∧
     (s.removeLights xs).1.net.inters = s.net.inters := by
-  refine Scn.loop_inv' Net.removeLight Scn.removeLights (fun _ => rfl) (fun _ _ _ => rfl)
+  refine Scn.loop_inv' loopShape_lights
     (fun m => m.lids = s.net.lids ∧ m.signs = s.net.signs ∧ (∀ e ∈ s.net.lights, e.1 ∉ xs → e ∈ m.lights) ∧
       m.inters = s.net.inters) s xs ?_ ⟨rfl, rfl, fun _ h _ => h, rfl⟩
   rintro m i hi ⟨q1, q2, q3, q4⟩
@@ -390,21 +471,37 @@ theorem C10_present_scnRemoveLights (s : Scn) (xs : List Id) :
   intro heq
   exact hne (heq ▸ hi)
 
-theorem C10_present_scnRemoveInter (s : Scn) (x : Id) (incs : List Id) :
-    (s.removeInter x incs).1.net = s.net.removeInter x := by
-  unfold Scn.removeInter; rw [Scn.idsRemoveAll_net]
+theorem C10_present_scnRemoveInter (s : Scn) (x : Id) :
+    (s.removeInter x).1.net = s.net.removeInter x := Scn.removeInter_net s x
 
-/-- `create_from_lanelet_network` (any `cleanup_ids`): the lanelets of the new network are exactly those that pass the
-filter; a sign / light is taken over exactly when a kept lanelet references it; an incoming element that keeps an
-incoming lanelet and a successor is taken over together with its intersection. -/
+/-- `create_from_lanelet_network` (any `cleanup_ids`, arbitrary filter result `keep`): the lanelets of the new network
+are exactly those that pass the filter; a sign / light is taken over exactly when a kept lanelet references it; an
+incoming element is taken over **exactly when** it keeps an incoming lanelet and a successor, and an intersection
+exactly when one of its incoming elements is taken over. -/
 theorem C10_present_cutOut {n n' : Net} {keep : Id → Bool} {c : Bool} (h : n.cutOut keep c = .ok n') :
     n'.lids = n.lids.filter keep ∧
     (∀ e, e ∈ n'.signs ↔ e ∈ n.signs ∧ ∃ l ∈ n.lanelets, keep l.id = true ∧ e.1 ∈ l.signs) ∧
     (∀ e, e ∈ n'.lights ↔ e ∈ n.lights ∧ ∃ l ∈ n.lanelets, keep l.id = true ∧ e.1 ∈ l.lights) ∧
-    (∀ i ∈ n.inters, ∀ k ∈ i.incomings, (∃ a ∈ k.inc, a ∈ n'.lids) →
-      (∃ a ∈ k.right ++ k.straight ++ k.left, a ∈ n'.lids) →
-      ∃ i' ∈ n'.inters, i'.id = i.id ∧ ∃ k' ∈ i'.incomings, k'.id = k.id) :=
-  ⟨cutOut_lids h, cutOut_signs h, cutOut_lights h, fun _ hi _ hk h1 h2 => cutOut_inter_present h hi hk h1 h2⟩
+    (∀ x kid, n'.hasInc x kid ↔ ∃ i ∈ n.inters, i.id = x ∧ ∃ k ∈ i.incomings, k.id = kid ∧
+      (∃ a ∈ k.inc, a ∈ n'.lids) ∧ (∃ a ∈ k.right ++ k.straight ++ k.left, a ∈ n'.lids)) ∧
+    (∀ x, x ∈ n'.iids ↔ ∃ i ∈ n.inters, i.id = x ∧ ∃ k ∈ i.incomings,
+      (∃ a ∈ k.inc, a ∈ n'.lids) ∧ (∃ a ∈ k.right ++ k.straight ++ k.left, a ∈ n'.lids)) := by
+  refine ⟨cutOut_lids h, cutOut_signs h, cutOut_lights h, fun x kid => ⟨?_, ?_⟩, fun x => ⟨?_, ?_⟩⟩
+  · rintro ⟨i', hi', rfl, k', hk', rfl⟩
+    obtain ⟨i, hi, hid, _, hks⟩ := cutOut_inter_origin h hi'
+    obtain ⟨k, hk, hkid, h1, h2⟩ := hks k' hk'
+    exact ⟨i, hi, hid, k, hk, hkid, h1, h2⟩
+  · rintro ⟨i, hi, rfl, k, hk, rfl, h1, h2⟩
+    obtain ⟨i', hi', hid, k', hk', hkid⟩ := cutOut_inter_present h hi hk h1 h2
+    exact ⟨i', hi', hid, k', hk', hkid⟩
+  · intro hx
+    obtain ⟨i', hi', rfl⟩ := List.mem_map.1 hx
+    obtain ⟨i, hi, hid, ⟨k0, hk0⟩, hks⟩ := cutOut_inter_origin h hi'
+    obtain ⟨k, hk, _, h1, h2⟩ := hks k0 hk0
+    exact ⟨i, hi, hid, k, hk, h1, h2⟩
+  · rintro ⟨i, hi, rfl, k, hk, h1, h2⟩
+    obtain ⟨i', hi', hid, _⟩ := cutOut_inter_present h hi hk h1 h2
+    exact List.mem_map.2 ⟨i', hi', hid⟩
 
 /-- a cut-out of a well-formed network without dangling references never raises -/
 theorem C10_cutOut_total {n : Net} (hnd : NoDangling n) (keep : Id → Bool) (c : Bool) : ∃ n', n.cutOut keep c = .ok n' := by
@@ -426,6 +523,401 @@ theorem C10_present_fromList (n : Net) (sel : List Id) (c : Bool) :
     (∀ a, a ∈ (n.fromList sel c).lids ↔ a ∈ sel ∧ a ∈ n.lids) ∧ (n.fromList sel c).signs = [] ∧
     (n.fromList sel c).lights = [] ∧ (n.fromList sel c).inters = [] := by
   refine ⟨fromList_lids n sel c, ?_, ?_, ?_⟩ <;> (unfold Net.fromList; cases c <;> rfl)
+
+/-! ## The scenario-level precondition under which `Scenario.remove_lanelet` returns normally -/
+
+/-- Id-pool consistency of a scenario (the invariant of property C09 — `C09_inv_run` proves it for every history of
+`Scenario` operations over C09's own model — restricted to the lanelet network): the ids of all lanelets, signs, lights,
+intersections and incoming elements are pairwise different and all recorded in `Scenario._id_set`.  It is the
+scenario-level precondition under which `Scenario.remove_lanelet` returns normally (`C10_removeLanelets_ok`); its
+preservation along histories is cited from C09, not re-proved here (`C10_idpool_fresh` covers the fresh scenario the
+history builds after each cut-out). -/
+def IdPool (s : Scn) : Prop := Uniq s.net ∧ ∀ x ∈ s.net.allIds, x ∈ s.ids
+
+/-- **`hok` discharged**: on a scenario with a consistent id pool, `Scenario.remove_lanelet(args, True)` does not raise
+when the lanelets handed in are pairwise different lanelets of the network. -/
+theorem C10_removeLanelets_ok (s : Scn) (args : List RmArg) (hp : IdPool s) (hnd : (args.map (·.id)).Nodup)
+    (hin : ∀ a ∈ args, a.id ∈ s.net.lids) : (s.removeLanelets args true).2 = none := by
+  obtain ⟨hu, hids⟩ := hp
+  obtain ⟨_, us, ut, _, dls, dlt, dst⟩ := uniq_parts hu
+  have inL : ∀ x ∈ s.net.lids, x ∈ s.ids := fun x hx => hids x (by simp [Net.allIds, hx])
+  have inS : ∀ x ∈ s.net.sids, x ∈ s.ids := fun x hx => hids x (by simp [Net.allIds, hx])
+  have inT : ∀ x ∈ s.net.tids, x ∈ s.ids := fun x hx => hids x (by simp [Net.allIds, hx])
+  have hsS : ∀ x ∈ s.net.hangingSigns args, x ∈ s.net.sids := fun x hx => (mem_hangingSigns.1 hx).1
+  have hsT : ∀ x ∈ s.net.hangingLights args, x ∈ s.net.tids := fun x hx => (mem_hangingLights.1 hx).1
+  have ndS : (s.net.hangingSigns args).Nodup := List.Nodup.sublist List.filter_sublist us
+  have ndT : (s.net.hangingLights args).Nodup := List.Nodup.sublist List.filter_sublist ut
+  have kS : ∀ m i j, j ≠ i → j ∈ Net.sids m → j ∈ Net.sids (Net.removeSign m i) := fun m i j hne hj => by
+    rw [removeSign_sids, List.mem_filter]; exact ⟨hj, by simpa using hne⟩
+  have kT : ∀ m i j, j ≠ i → j ∈ Net.tids m → j ∈ Net.tids (Net.removeLight m i) := fun m i j hne hj => by
+    rw [removeLight_tids, List.mem_filter]; exact ⟨hj, by simpa using hne⟩
+  have kL : ∀ m i j, j ≠ i → j ∈ Net.lids m → j ∈ Net.lids (Net.removeLanelet m i) := fun m i j hne hj => by
+    rw [removeLanelet_lids, List.mem_filter]; exact ⟨hj, by simpa using hne⟩
+  have o1 := Scn.loop_ok loopShape_signs kS s _ ndS hsS (fun x hx => inS x (hsS x hx))
+  have t1 := Scn.removeSigns_inv (fun m => m.tids = s.net.tids ∧ m.lids = s.net.lids)
+    (fun m i h => ⟨(removeSign_tids m i).trans h.1, (removeSign_lids m i).trans h.2⟩) s (s.net.hangingSigns args) ⟨rfl, rfl⟩
+  unfold Scn.removeLanelets Scn.removeHanging
+  simp only [if_true]
+  cases hr : s.removeSigns (s.net.hangingSigns args) with
+  | mk s1 e1 =>
+    rw [hr] at o1 t1
+    obtain ⟨o1e, o1i⟩ := o1
+    simp only at o1e o1i
+    subst o1e
+    dsimp only
+    have o2 := Scn.loop_ok loopShape_lights kT s1 _ ndT (fun x hx => by rw [t1.1]; exact hsT x hx)
+      (fun x hx => (o1i x).2 ⟨inT x (hsT x hx), fun hc => dst x (hsS x hc) (hsT x hx)⟩)
+    have t2 := Scn.removeLights_inv (fun m => m.lids = s.net.lids)
+      (fun m i h => (removeLight_lids m i).trans h) s1 (s.net.hangingLights args) t1.2
+    cases hr2 : s1.removeLights (s.net.hangingLights args) with
+    | mk s2 e2 =>
+      rw [hr2] at o2 t2
+      obtain ⟨o2e, o2i⟩ := o2
+      simp only at o2e o2i
+      subst o2e
+      dsimp only
+      refine (Scn.loop_ok loopShape_lanelets kL s2 _ hnd (fun x hx => ?_) ?_).1
+      · obtain ⟨a, ha, rfl⟩ := List.mem_map.1 hx
+        rw [t2]; exact hin a ha
+      intro x hx
+      obtain ⟨a, ha, rfl⟩ := List.mem_map.1 hx
+      have hl := hin a ha
+      exact (o2i _).2 ⟨(o1i _).2 ⟨inL _ hl, fun hc => dls _ hl (hsS _ hc)⟩, fun hc => dlt _ hl (hsT _ hc)⟩
+
+/-- **hanging, "iff", with the precondition spelled out**: consistent id pool, pairwise different lanelets of the network
+handed in. -/
+theorem C10_hanging_iff_idpool (s : Scn) (args : List RmArg) (hp : IdPool s) (hnd : (args.map (·.id)).Nodup)
+    (hin : ∀ a ∈ args, a.id ∈ s.net.lids) (e : Elem) (he : e ∈ s.net.signs) :
+    e.1 ∉ (s.removeLanelets args true).1.net.sids ↔
+      (∃ a ∈ args, e.1 ∈ a.signs) ∧ ∀ l ∈ s.net.lanelets, l.id ∉ args.map (·.id) → e.1 ∉ l.signs :=
+  C10_hanging_iff s args (C10_removeLanelets_ok s args hp hnd hin) e he
+
+theorem C10_hanging_iff_light_idpool (s : Scn) (args : List RmArg) (hp : IdPool s) (hnd : (args.map (·.id)).Nodup)
+    (hin : ∀ a ∈ args, a.id ∈ s.net.lids) (e : Elem) (he : e ∈ s.net.lights) :
+    e.1 ∉ (s.removeLanelets args true).1.net.tids ↔
+      (∃ a ∈ args, e.1 ∈ a.lights) ∧ ∀ l ∈ s.net.lanelets, l.id ∉ args.map (·.id) → e.1 ∉ l.lights :=
+  C10_hanging_iff_light s args (C10_removeLanelets_ok s args hp hnd hin) e he
+
+/-- a fresh scenario built from a network with unique ids (`add_objects(network)`, what the history does after every
+cut-out) has a consistent id pool -/
+theorem C10_idpool_fresh (n : Net) (hu : Uniq n) : IdPool { net := n, ids := n.allIds } := ⟨hu, fun _ h => h⟩
+
+/-! ## Presence at history level: what was never selected for removal is still there, with equal content -/
+
+/-- a cut-out drops an incoming element that keeps no incoming lanelet or no successor (`L` = the kept lanelets) -/
+def cutDrops (L : Id → Prop) (k : Incoming) : Prop :=
+  (∀ a ∈ k.inc, ¬ L a) ∨ (∀ a ∈ k.right ++ k.straight ++ k.left, ¬ L a)
+
+/-- lanelet ids an operation selects for removal -/
+def Op.selL (_ : Scn) : Op → Id → Prop
+  | .netRemoveLanelet x, a => a = x
+  | .scnRemoveLanelets args _, a => a ∈ args.map (·.id)
+  | .cutOut keep _, a => a ∉ keep
+  | .fromList sel _, a => a ∉ sel
+  | _, _ => False
+
+/-- sign ids an operation selects for removal (with a lanelet: the hanging ones; in a cut-out: those no kept lanelet
+references; `create_from_lanelet_list` takes no sign at all) -/
+def Op.selS (s : Scn) : Op → Id → Prop
+  | .netRemoveSign x, t => t = x
+  | .scnRemoveSigns xs, t => t ∈ xs
+  | .scnRemoveLanelets args r, t => r = true ∧ t ∈ s.net.hangingSigns args
+  | .cutOut keep _, t => ¬ ∃ l ∈ s.net.lanelets, keep.contains l.id = true ∧ t ∈ l.signs
+  | .fromList _ _, _ => True
+  | _, _ => False
+
+def Op.selT (s : Scn) : Op → Id → Prop
+  | .netRemoveLight x, t => t = x
+  | .scnRemoveLights xs, t => t ∈ xs
+  | .scnRemoveLanelets args r, t => r = true ∧ t ∈ s.net.hangingLights args
+  | .cutOut keep _, t => ¬ ∃ l ∈ s.net.lanelets, keep.contains l.id = true ∧ t ∈ l.lights
+  | .fromList _ _, _ => True
+  | _, _ => False
+
+/-- (intersection id, incoming id) pairs an operation selects for removal -/
+def Op.selK (s : Scn) : Op → Id × Id → Prop
+  | .netRemoveInter x, y => y.1 = x
+  | .scnRemoveInter x, y => y.1 = x
+  | .cutOut keep _, y => ∀ i ∈ s.net.inters, i.id = y.1 → ∀ k ∈ i.incomings, k.id = y.2 →
+      cutDrops (fun a => a ∈ s.net.lids ∧ keep.contains a = true) k
+  | .fromList _ _, _ => True
+  | _, _ => False
+
+/-- intersection ids an operation selects for removal (in a cut-out: all incoming elements are dropped) -/
+def Op.selI (s : Scn) : Op → Id → Prop
+  | .netRemoveInter x, y => y = x
+  | .scnRemoveInter x, y => y = x
+  | .cutOut keep _, y => ∀ i ∈ s.net.inters, i.id = y → ∀ k ∈ i.incomings,
+      cutDrops (fun a => a ∈ s.net.lids ∧ keep.contains a = true) k
+  | .fromList _ _, _ => True
+  | _, _ => False
+
+theorem cutDropsB_iff (L : Id → Bool) (k : Incoming) : cutDropsB L k = true ↔ cutDrops (fun a => L a = true) k := by
+  simp [cutDropsB, cutDrops, List.all_eq_true]
+  grind
+
+/-- the executable selection functions of the model (`Op.sel?B`, compared with the oracle's reading of "selected for
+removal" on every step of every history) decide the selection predicates used below -/
+theorem C10_sel_bool_iff (s : Scn) (op : Op) :
+    (∀ a, op.selLB s a = true ↔ op.selL s a) ∧ (∀ t, op.selSB s t = true ↔ op.selS s t) ∧
+    (∀ t, op.selTB s t = true ↔ op.selT s t) ∧ (∀ y, op.selIB s y = true ↔ op.selI s y) ∧
+    (∀ y, op.selKB s y = true ↔ op.selK s y) := by
+  refine ⟨fun a => ?_, fun t => ?_, fun t => ?_, fun y => ?_, fun y => ?_⟩
+  · cases op <;> simp [Op.selLB, Op.selL]
+  · cases op <;> simp [Op.selSB, Op.selS]
+  · cases op <;> simp [Op.selTB, Op.selT]
+  · cases op <;> simp [Op.selIB, Op.selI, cutDropsB_iff, List.all_eq_true] <;> grind
+  · cases op <;> simp [Op.selKB, Op.selK, cutDropsB_iff, List.all_eq_true] <;> grind
+
+/-- `a` is selected for removal by no operation of the history (selection evaluated in the state the operation meets) -/
+def NeverSel {α : Type} (sel : Scn → Op → α → Prop) : Scn → List Op → α → Prop
+  | _, [], _ => True
+  | s, o :: os, a => ¬ sel s o a ∧ NeverSel sel (s.step o).1 os a
+
+theorem neverSel_run {α : Type} (sel : Scn → Op → α → Prop) (a : α) (P : Net → Prop)
+    (hstep : ∀ s op, P s.net → ¬ sel s op a → P (s.step op).1.net) :
+    ∀ (s : Scn) (ops : List Op), P s.net → NeverSel sel s ops a → P (s.run ops).net := by
+  intro s ops
+  induction ops generalizing s with
+  | nil => intro h _; exact h
+  | cons o os ih => intro h hn; exact ih (s.step o).1 (hstep s o h hn.1) hn.2
+
+theorem step_cutOut_eq (s : Scn) (keep : List Id) (c : Bool) :
+    (s.step (.cutOut keep c)).1.net = (match s.net.cutOut (fun a => keep.contains a) c with
+      | .ok n' => n'
+      | .error _ => s.net) := by
+  show (match s.net.cutOut (fun a => keep.contains a) c with
+      | .ok n' => (({ net := n', ids := n'.allIds } : Scn), (none : Option Err))
+      | .error e => (s, some e)).1.net = _
+  cases s.net.cutOut (fun a => keep.contains a) c <;> rfl
+
+theorem not_cutDrops {L : Id → Prop} {k : Incoming} (h : ¬ cutDrops L k) :
+    (∃ a ∈ k.inc, L a) ∧ (∃ a ∈ k.right ++ k.straight ++ k.left, L a) := by
+  unfold cutDrops at h
+  constructor
+  · exact Classical.byContradiction fun hn => h (Or.inl fun a ha hl => hn ⟨a, ha, hl⟩)
+  · exact Classical.byContradiction fun hn => h (Or.inr fun a ha hl => hn ⟨a, ha, hl⟩)
+
+/-- one step: a lanelet that the operation does not select stays -/
+theorem C10_present_step_lanelet (s : Scn) (op : Op) (a : Id) (ha : a ∈ s.net.lids) (hs : ¬ op.selL s a) :
+    a ∈ (s.step op).1.net.lids := by
+  cases op with
+  | netRemoveLanelet x =>
+    show a ∈ (s.net.removeLanelet x).lids
+    rw [removeLanelet_lids, List.mem_filter]; exact ⟨ha, by simpa [Op.selL] using hs⟩
+  | netRemoveSign x => show a ∈ (s.net.removeSign x).lids; rw [removeSign_lids]; exact ha
+  | netRemoveLight x => show a ∈ (s.net.removeLight x).lids; rw [removeLight_lids]; exact ha
+  | netRemoveInter x => exact ha
+  | scnRemoveLanelets args r => exact (C10_present_scnRemoveLanelets s args r).1 a ha hs
+  | scnRemoveSigns xs => show a ∈ (s.removeSigns xs).1.net.lids; rw [(C10_present_scnRemoveSigns s xs).1]; exact ha
+  | scnRemoveLights xs => show a ∈ (s.removeLights xs).1.net.lids; rw [(C10_present_scnRemoveLights s xs).1]; exact ha
+  | scnRemoveInter x => show a ∈ (s.removeInter x).1.net.lids; rw [C10_present_scnRemoveInter]; exact ha
+  | cutOut keep c =>
+    rw [step_cutOut_eq]
+    cases hr : s.net.cutOut (fun a => keep.contains a) c with
+    | ok n' =>
+      show a ∈ n'.lids
+      rw [cutOut_lids hr, List.mem_filter]
+      exact ⟨ha, by simpa [Op.selL] using hs⟩
+    | error e => exact ha
+  | fromList sel c =>
+    show a ∈ (s.net.fromList sel c).lids
+    rw [fromList_lids]
+    exact ⟨by simpa [Op.selL] using hs, ha⟩
+
+/-- one step: a sign (id and content) that the operation does not select stays -/
+theorem C10_present_step_sign (s : Scn) (op : Op) (e : Elem) (he : e ∈ s.net.signs) (hs : ¬ op.selS s e.1) :
+    e ∈ (s.step op).1.net.signs := by
+  cases op with
+  | netRemoveLanelet x => show e ∈ (s.net.removeLanelet x).signs; rw [removeLanelet_signs]; exact he
+  | netRemoveSign x =>
+    show e ∈ (s.net.removeSign x).signs
+    rw [removeSign_signs, List.mem_filter]; exact ⟨he, by simpa [Op.selS] using hs⟩
+  | netRemoveLight x => exact he
+  | netRemoveInter x => exact he
+  | scnRemoveLanelets args r =>
+    cases r
+    · show e ∈ (s.removeLanelets args false).1.net.signs
+      rw [(C10_present_scnRemoveLanelets_unreferenced s args).1]; exact he
+    · exact (C10_present_scnRemoveLanelets s args true).2.1 e he (fun hm => hs ⟨rfl, hm⟩)
+  | scnRemoveSigns xs => exact (C10_present_scnRemoveSigns s xs).2.1 e he hs
+  | scnRemoveLights xs => show e ∈ (s.removeLights xs).1.net.signs; rw [(C10_present_scnRemoveLights s xs).2.1]; exact he
+  | scnRemoveInter x => show e ∈ (s.removeInter x).1.net.signs; rw [C10_present_scnRemoveInter]; exact he
+  | cutOut keep c =>
+    rw [step_cutOut_eq]
+    cases hr : s.net.cutOut (fun a => keep.contains a) c with
+    | ok n' =>
+      show e ∈ n'.signs
+      rw [cutOut_signs hr]
+      exact ⟨he, Classical.byContradiction fun hn => hs hn⟩
+    | error e' => exact he
+  | fromList sel c => exact absurd trivial hs
+
+theorem C10_present_step_light (s : Scn) (op : Op) (e : Elem) (he : e ∈ s.net.lights) (hs : ¬ op.selT s e.1) :
+    e ∈ (s.step op).1.net.lights := by
+  cases op with
+  | netRemoveLanelet x => show e ∈ (s.net.removeLanelet x).lights; rw [removeLanelet_lights]; exact he
+  | netRemoveSign x => show e ∈ (s.net.removeSign x).lights; rw [removeSign_lights]; exact he
+  | netRemoveLight x =>
+    show e ∈ (s.net.removeLight x).lights
+    rw [removeLight_lights, List.mem_filter]; exact ⟨he, by simpa [Op.selT] using hs⟩
+  | netRemoveInter x => exact he
+  | scnRemoveLanelets args r =>
+    cases r
+    · show e ∈ (s.removeLanelets args false).1.net.lights
+      rw [(C10_present_scnRemoveLanelets_unreferenced s args).2]; exact he
+    · exact (C10_present_scnRemoveLanelets s args true).2.2.1 e he (fun hm => hs ⟨rfl, hm⟩)
+  | scnRemoveSigns xs => show e ∈ (s.removeSigns xs).1.net.lights; rw [(C10_present_scnRemoveSigns s xs).2.2.1]; exact he
+  | scnRemoveLights xs => exact (C10_present_scnRemoveLights s xs).2.2.1 e he hs
+  | scnRemoveInter x => show e ∈ (s.removeInter x).1.net.lights; rw [C10_present_scnRemoveInter]; exact he
+  | cutOut keep c =>
+    rw [step_cutOut_eq]
+    cases hr : s.net.cutOut (fun a => keep.contains a) c with
+    | ok n' =>
+      show e ∈ n'.lights
+      rw [cutOut_lights hr]
+      exact ⟨he, Classical.byContradiction fun hn => hs hn⟩
+    | error e' => exact he
+  | fromList sel c => exact absurd trivial hs
+
+/-- one step: an incoming element (with its intersection) that the operation does not select stays -/
+theorem C10_present_step_incoming (s : Scn) (op : Op) (y : Id × Id) (hy : s.net.hasInc y.1 y.2) (hs : ¬ op.selK s y) :
+    (s.step op).1.net.hasInc y.1 y.2 := by
+  have viaShapes : ∀ n' : Net, n'.shapes = s.net.shapes → n'.hasInc y.1 y.2 :=
+    fun n' h => (hasInc_of_shapes_eq h _ _).2 hy
+  cases op with
+  | netRemoveLanelet x => exact viaShapes _ (removeLanelet_shapes _ x)
+  | netRemoveSign x => exact viaShapes _ (removeSign_shapes _ x)
+  | netRemoveLight x => exact viaShapes _ (removeLight_shapes _ x)
+  | netRemoveInter x =>
+    obtain ⟨i, hi, hid, hk⟩ := hy
+    exact ⟨i, List.mem_filter.2 ⟨hi, by simpa [Op.selK, hid] using hs⟩, hid, hk⟩
+  | scnRemoveLanelets args r => exact viaShapes _ (C10_present_scnRemoveLanelets s args r).2.2.2
+  | scnRemoveSigns xs => exact viaShapes _ (shapes_of_inters_eq (C10_present_scnRemoveSigns s xs).2.2.2)
+  | scnRemoveLights xs => exact viaShapes _ (shapes_of_inters_eq (C10_present_scnRemoveLights s xs).2.2.2)
+  | scnRemoveInter x =>
+    show (s.removeInter x).1.net.hasInc y.1 y.2
+    rw [C10_present_scnRemoveInter]
+    obtain ⟨i, hi, hid, hk⟩ := hy
+    exact ⟨i, List.mem_filter.2 ⟨hi, by simpa [Op.selK, hid] using hs⟩, hid, hk⟩
+  | cutOut keep c =>
+    rw [step_cutOut_eq]
+    cases hr : s.net.cutOut (fun a => keep.contains a) c with
+    | ok n' =>
+      show n'.hasInc y.1 y.2
+      have hsel : ¬ ∀ i ∈ s.net.inters, i.id = y.1 → ∀ k ∈ i.incomings, k.id = y.2 →
+          cutDrops (fun a => a ∈ s.net.lids ∧ keep.contains a = true) k := hs
+      have : ∃ i ∈ s.net.inters, i.id = y.1 ∧ ∃ k ∈ i.incomings, k.id = y.2 ∧
+          ¬ cutDrops (fun a => a ∈ s.net.lids ∧ keep.contains a = true) k :=
+        Classical.byContradiction fun hn => hsel fun i hi hid k hk hkid =>
+          Classical.byContradiction fun hd => hn ⟨i, hi, hid, k, hk, hkid, hd⟩
+      obtain ⟨i, hi, hid, k, hk, hkid, hd⟩ := this
+      obtain ⟨⟨a, ha, hla⟩, ⟨b, hb, hlb⟩⟩ := not_cutDrops hd
+      have hl := cutOut_lids hr
+      refine ((C10_present_cutOut hr).2.2.2.1 y.1 y.2).2 ⟨i, hi, hid, k, hk, hkid, ⟨a, ha, ?_⟩, ⟨b, hb, ?_⟩⟩
+      · rw [hl, List.mem_filter]; exact hla
+      · rw [hl, List.mem_filter]; exact hlb
+    | error e' => exact hy
+  | fromList sel c => exact absurd trivial hs
+
+/-- one step: an intersection that the operation does not select stays -/
+theorem C10_present_step_inter (s : Scn) (op : Op) (x : Id) (hx : x ∈ s.net.iids) (hs : ¬ op.selI s x) :
+    x ∈ (s.step op).1.net.iids := by
+  have viaShapes : ∀ n' : Net, n'.shapes = s.net.shapes → x ∈ n'.iids :=
+    fun n' h => by rw [iids_of_shapes_eq h]; exact hx
+  cases op with
+  | netRemoveLanelet x' => exact viaShapes _ (removeLanelet_shapes _ x')
+  | netRemoveSign x' => exact viaShapes _ (removeSign_shapes _ x')
+  | netRemoveLight x' => exact viaShapes _ (removeLight_shapes _ x')
+  | netRemoveInter x' =>
+    obtain ⟨i, hi, hid⟩ := List.mem_map.1 hx
+    exact List.mem_map.2 ⟨i, List.mem_filter.2 ⟨hi, by simpa [Op.selI, hid] using hs⟩, hid⟩
+  | scnRemoveLanelets args r => exact viaShapes _ (C10_present_scnRemoveLanelets s args r).2.2.2
+  | scnRemoveSigns xs => exact viaShapes _ (shapes_of_inters_eq (C10_present_scnRemoveSigns s xs).2.2.2)
+  | scnRemoveLights xs => exact viaShapes _ (shapes_of_inters_eq (C10_present_scnRemoveLights s xs).2.2.2)
+  | scnRemoveInter x' =>
+    show x ∈ (s.removeInter x').1.net.iids
+    rw [C10_present_scnRemoveInter]
+    obtain ⟨i, hi, hid⟩ := List.mem_map.1 hx
+    exact List.mem_map.2 ⟨i, List.mem_filter.2 ⟨hi, by simpa [Op.selI, hid] using hs⟩, hid⟩
+  | cutOut keep c =>
+    rw [step_cutOut_eq]
+    cases hr : s.net.cutOut (fun a => keep.contains a) c with
+    | ok n' =>
+      show x ∈ n'.iids
+      have hsel : ¬ ∀ i ∈ s.net.inters, i.id = x → ∀ k ∈ i.incomings,
+          cutDrops (fun a => a ∈ s.net.lids ∧ keep.contains a = true) k := hs
+      have : ∃ i ∈ s.net.inters, i.id = x ∧ ∃ k ∈ i.incomings,
+          ¬ cutDrops (fun a => a ∈ s.net.lids ∧ keep.contains a = true) k :=
+        Classical.byContradiction fun hn => hsel fun i hi hid k hk =>
+          Classical.byContradiction fun hd => hn ⟨i, hi, hid, k, hk, hd⟩
+      obtain ⟨i, hi, hid, k, hk, hd⟩ := this
+      obtain ⟨⟨a, ha, hla⟩, ⟨b, hb, hlb⟩⟩ := not_cutDrops hd
+      have hl := cutOut_lids hr
+      refine ((C10_present_cutOut hr).2.2.2.2 x).2 ⟨i, hi, hid, k, hk, ⟨a, ha, ?_⟩, ⟨b, hb, ?_⟩⟩
+      · rw [hl, List.mem_filter]; exact hla
+      · rw [hl, List.mem_filter]; exact hlb
+    | error e' => exact hx
+  | fromList sel c => exact absurd trivial hs
+
+/-- **After any history, every element that no operation selected for removal is still present with equal content.**
+Start network with pairwise different ids (`Uniq`), `cleanup_ids=True`; nothing is assumed about dangling references.
+* lanelet: the *old lanelet itself* is framed by a lanelet of the final network (same id, same content, relations
+  restricted to what is left);
+* sign / light: the very same (id, content) pair is in the final network;
+* intersection: the old intersection itself is framed by one of the final network (same id, crossings restricted);
+* incoming element: the old incoming element itself is framed by one of the final network inside the intersection with
+  the same id (same incoming id, same `left_of`, sets restricted). -/
+theorem C10_present_run (s : Scn) (ops : List Op) (hu : Uniq s.net) (hc : ∀ op ∈ ops, op.cleans) :
+    (∀ l ∈ s.net.lanelets, NeverSel Op.selL s ops l.id →
+      ∃ l' ∈ (s.run ops).net.lanelets,
+        LaneletFrame (· ∈ (s.run ops).net.lids) (· ∈ (s.run ops).net.sids) (· ∈ (s.run ops).net.tids) l l') ∧
+    (∀ e ∈ s.net.signs, NeverSel Op.selS s ops e.1 → e ∈ (s.run ops).net.signs) ∧
+    (∀ e ∈ s.net.lights, NeverSel Op.selT s ops e.1 → e ∈ (s.run ops).net.lights) ∧
+    (∀ i ∈ s.net.inters, NeverSel Op.selI s ops i.id →
+      ∃ i' ∈ (s.run ops).net.inters, InterFrame (· ∈ (s.run ops).net.lids) i i') ∧
+    (∀ i ∈ s.net.inters, ∀ k ∈ i.incomings, NeverSel Op.selK s ops (i.id, k.id) →
+      ∃ i' ∈ (s.run ops).net.inters, i'.id = i.id ∧ ∃ k' ∈ i'.incomings, IncFrame (· ∈ (s.run ops).net.lids) k k') := by
+  have f := C10_frame_run s ops hc
+  obtain ⟨ul, _, _, ui, _⟩ := uniq_parts hu
+  obtain ⟨uii, uik⟩ := interIds_parts ui
+  have ul' : (s.net.lanelets.map (·.id)).Nodup := ul
+  refine ⟨fun l hl hn => ?_, fun e he hn => ?_, fun e he hn => ?_, fun i hi hn => ?_, fun i hi k hk hn => ?_⟩
+  · have hp := neverSel_run Op.selL l.id (fun n => l.id ∈ n.lids)
+      (fun s op h hs => C10_present_step_lanelet s op l.id h hs) s ops (List.mem_map.2 ⟨l, hl, rfl⟩) hn
+    obtain ⟨l', hl', hid⟩ := List.mem_map.1 hp
+    obtain ⟨l0, hl0, lf⟩ := f.lan l' hl'
+    have : l0 = l := eq_of_nodup_map (·.id) ul' hl0 hl (lf.id.symm.trans hid)
+    exact ⟨l', hl', this ▸ lf⟩
+  · exact neverSel_run Op.selS e.1 (fun n => e ∈ n.signs)
+      (fun s op h hs => C10_present_step_sign s op e h hs) s ops he hn
+  · exact neverSel_run Op.selT e.1 (fun n => e ∈ n.lights)
+      (fun s op h hs => C10_present_step_light s op e h hs) s ops he hn
+  · have hp := neverSel_run Op.selI i.id (fun n => i.id ∈ n.iids)
+      (fun s op h hs => C10_present_step_inter s op i.id h hs) s ops (List.mem_map.2 ⟨i, hi, rfl⟩) hn
+    obtain ⟨i', hi', hid⟩ := List.mem_map.1 hp
+    obtain ⟨i0, hi0, jf⟩ := f.inter i' hi'
+    have : i0 = i := eq_of_nodup_map (·.id) uii hi0 hi (jf.id.symm.trans hid)
+    exact ⟨i', hi', this ▸ jf⟩
+  · have hp := neverSel_run Op.selK (i.id, k.id) (fun n => n.hasInc i.id k.id)
+      (fun s op h hs => C10_present_step_incoming s op (i.id, k.id) h hs) s ops ⟨i, hi, rfl, k, hk, rfl⟩ hn
+    obtain ⟨i', hi', hid, k', hk', hkid⟩ := hp
+    obtain ⟨i0, hi0, jf⟩ := f.inter i' hi'
+    have e0 : i0 = i := eq_of_nodup_map (·.id) uii hi0 hi (jf.id.symm.trans hid)
+    subst e0
+    obtain ⟨k0, hk0, kf⟩ := jf.incs k' hk'
+    have e1 : k0 = k := eq_of_nodup_map (·.id) (uik i0 hi) hk0 hk (kf.id.symm.trans hkid)
+    exact ⟨i', hi', hid, k', hk', e1 ▸ kf⟩
+
+/-- per-step form of the lanelet clause, kept for reference: with unique lanelet ids the old lanelet itself is framed -/
+theorem C10_unselected_unchanged {n n' : Net} (hn : n.lids.Nodup) (f : Frame n n') {l : Lanelet} (hl : l ∈ n.lanelets)
+    (hs : l.id ∈ n'.lids) :
+    ∃ l' ∈ n'.lanelets, LaneletFrame (· ∈ n'.lids) (· ∈ n'.sids) (· ∈ n'.tids) l l' := by
+  obtain ⟨l', hl', hid⟩ := List.mem_map.1 hs
+  obtain ⟨l0, hl0, lf⟩ := f.lan l' hl'
+  have hn' : (n.lanelets.map (·.id)).Nodup := hn
+  have : l0 = l := eq_of_nodup_map (·.id) hn' hl0 hl (lf.id.symm.trans hid)
+  exact ⟨l', hl', this ▸ lf⟩
 
 /-! ## Non-vacuity: a concrete well-formed network, and what goes wrong outside the hypotheses -/
 
@@ -454,7 +946,7 @@ example : Inv net := by unfold Inv; decide
 example : net.lids.Nodup := by decide
 -- the hypotheses of the step / run theorems are met by a history that uses every kind of operation
 example : ∀ op ∈ [Op.scnRemoveLanelets [⟨2, [10, 11], [20]⟩] true, .netRemoveSign 10, .cutOut [1, 3, 4] true,
-    .netRemoveLight 20, .scnRemoveInter 30 [31, 32], .fromList [1, 4] true], op.cleans := by decide
+    .netRemoveLight 20, .scnRemoveInter 30, .fromList [1, 4] true], op.cleans := by decide
 -- removing lanelet 2 with its referenced elements: sign 11 (only on 2) goes, sign 10 (shared with 1) and light 20
 -- (shared with 3) stay, every reference to 2 is gone
 example : ((scn.step (.scnRemoveLanelets [⟨2, [10, 11], [20]⟩] true)).1.net.sids,
@@ -488,6 +980,27 @@ away stay. -/
 theorem C10_witness_cleanup_needed :
     ∃ n', net.cutOut (fun a => [1, 3, 4].contains a) false = .ok n' ∧ ¬ NoDangling n' := by
   refine ⟨_, rfl, by decide⟩
+
+/-- **Observation (not demanded by the property: `left_of` is not among the listed relations).**  Cutting `{1, 2, 4}`
+out of the well-formed example network keeps incoming element 31 (incoming lanelet 1, successors 2 and 4) and drops
+incoming element 32 (its only successor, lanelet 3, is cut away); 31 is copied with `left_of = 32`, which now names no
+incoming element of the new network — while no *listed* relation dangles (`NoDangling`).  Replayed on the real
+`create_from_lanelet_network` by corpus/C10/lean_example_cut_124_leftof.json. -/
+theorem C10_witness_leftOf_dangles : Inv net ∧
+    ∃ n', net.cutOut (fun a => [1, 2, 4].contains a) true = .ok n' ∧ NoDangling n' ∧
+      ∃ i ∈ n'.inters, ∃ k ∈ i.incomings, k.leftOf = some 32 ∧ 32 ∉ i.incomings.map (·.id) := by
+  refine ⟨by unfold Inv; decide, _, rfl, by decide, ?_⟩
+  decide
+
+-- the scenario-level precondition of `C10_removeLanelets_ok` / `C10_hanging_iff_idpool` is met by the example scenario
+example : IdPool scn := by unfold IdPool; decide
+-- lanelet 1 and sign 10 are selected by neither operation of this history, lanelet 2 by the first one
+example : NeverSel Op.selL scn [.netRemoveLanelet 2, .cutOut [1, 3, 4] true] 1 := by
+  simp [NeverSel, Op.selL]
+example : ¬ NeverSel Op.selL scn [.netRemoveLanelet 2, .cutOut [1, 3, 4] true] 2 := by
+  simp [NeverSel, Op.selL]
+example : (scn.selections [.scnRemoveLanelets [⟨2, [10, 11], [20]⟩] true, .cutOut [1, 4] true]) =
+    [⟨[2], [11], [], [], []⟩, ⟨[3], [], [20], [], [(30, 32)]⟩] := by decide
 
 end Ex
 
